@@ -785,6 +785,9 @@ func libTorsionRule(_ *vctx, v reflect.Value) error {
 // a point of the curve, and (for the types that promise it) a point of the prime-order subgroup.
 func pointRule(c *refcurve.Curve, format string, promisesSubgroup bool) rule {
 	return func(x *vctx, v reflect.Value) error {
+		if boolM(v, "IsOpIdentity") {
+			return nil // the neutral element is a value of every point type (its encoding is a convention of the library)
+		}
 		enc := callM(v, "ToCompressed")[0].Bytes()
 		if x.modelCurveBudget > 0 {
 			x.modelCurveBudget--
